@@ -11,6 +11,7 @@ def obligations():
     from props import pat_ob
     obs += pat_ob.obligations_c04()
     obs += selftest_ob.parser_obligations('O4.0')
+    obs += parser_ob.obligations_long_lookahead('O4.10')
     try:
         from props import e1_obs
         obs += e1_obs.c04_obligations()
